@@ -152,7 +152,16 @@ def run_real(sc, chooser, max_steps=2500):
                             sched.trace[mark][2] = "rejected"
                     elif c[0] == "cancel_event":
                         the_id = ids[c[1]]
-                        ao.cancel_event(the_id if c[2] else _uuid.UUID(str(the_id)))
+                        if c[2]:
+                            other = the_id
+                        elif isinstance(the_id, _uuid.UUID):
+                            other = _uuid.UUID(str(the_id))           # an equal id that is a different object
+                        elif isinstance(the_id, str):
+                            other = "".join(list(the_id))
+                        else:
+                            import copy
+                            other = copy.deepcopy(the_id)
+                        ao.cancel_event(other)
                     elif c[0] == "cancel_events":
                         name = "E%d" % c[1]
                         if not c[2]:
@@ -646,16 +655,26 @@ def run_fabric_stop(spec, chooser, max_steps=3000):
     """posts to an active object before and after ActiveFabric().stop() returned"""
     res = {"errors": [], "log": []}
     saved_pp = mao.pp
+    saved_print = mao._print
     mao.pp = lambda x: None
+    mao._print = lambda content: None
+    live = bool(spec.get("live"))
     with dsched.Installed():
-        sched = dsched.Sched(chooser, max_steps=max_steps, yield_filter=yield_filter)
+        # with live output on, every hand-over of a line to the writer thread is a scheduling point too
+        sched = dsched.Sched(chooser, max_steps=max_steps,
+                             yield_filter=(lambda l: yield_filter(l) or l.startswith("DQueue.")) if live else yield_filter)
         dsched.Sched.current = sched
         try:
             ao = mao.ActiveObject(name="C")
             sched.name_obj(ao.locking_deque.deque, "dq")
             sched.name_obj(ao.locking_deque.locking_queue, "tok")
             sched.name_obj(ao.activeobject_task_event, "run")
-            ao.start_at(_basic_chart(res["log"]))
+            chart = _basic_chart(res["log"])
+            if live:
+                chart = mhsm.spy_on(chart)
+                ao.live_spy = True
+                ao.register_live_spy_callback(lambda line: None)      # handed over through the writer thread
+            ao.start_at(chart)
             sched.name_obj(ao.fabric_task_event, "fab")
 
             def client():
@@ -682,6 +701,7 @@ def run_fabric_stop(spec, chooser, max_steps=3000):
         finally:
             leaked = sched.shutdown()
             mao.pp = saved_pp
+            mao._print = saved_print
             if leaked:
                 res["errors"].append("leaked: %s" % leaked)
     return res
@@ -692,14 +712,17 @@ def explore_fabric_stop(run, n):
     C13_halts_active_objects_* are about the consumer model tied by the C04/C05 streams)"""
     rng = run.rng
     for _ in range(n):
-        spec = {"before": rng.randint(0, 2), "pauses": rng.choice([0, 1, 3, 6]), "after": rng.randint(1, 3), "lifo": int(rng.random() < 0.3)}
+        spec = {"before": rng.randint(0, 2), "pauses": rng.choice([0, 1, 3, 6]), "after": rng.randint(1, 3), "lifo": int(rng.random() < 0.3),
+                "live": int(rng.random() < 0.4)}
+        if spec["live"]:
+            spec["before"] = rng.randint(1, 3)       # an instrumented object with live spy output, busy when the fabric is stopped
         seed = rng.randrange(1 << 30)
         r2 = random.Random(seed)
         base = dsched.pct_chooser(r2, depth=r2.randint(1, 3), est_len=100) if r2.random() < 0.5 else dsched.random_chooser(r2)
         res = run_fabric_stop(spec, base)
         trace = res["trace"]
         cj = {"what": "fabric-stop", "spec": spec, "seed": seed, "schedule": [e[0] for e in trace]}
-        run.count("active object woken after the fabric was stopped")
+        run.count("active object woken after the fabric was stopped%s" % (" (instrumented, live spy output)" if spec["live"] else ""))
         run.traces_validated += 1
         if res["errors"]:
             run.violate("C13/thread-error", "a thread died: %s" % res["errors"][:2], cj)
@@ -749,6 +772,11 @@ def run_prestart(spec, chooser, max_steps=3000):
                 sched.yield_point("call.begin")
                 if spec["where"] == "entry":
                     ao.start_at(_basic_chart(res["log"], on_entry=arm))
+                elif spec["where"] == "started":
+                    ao.start_at(_basic_chart(res["log"]))
+                    sched.yield_point("call.timed")
+                    res["armed_at"] = sched.now
+                    arm(ao)
                 else:
                     arm(ao)
                     if spec["wait"]:
@@ -762,7 +790,7 @@ def run_prestart(spec, chooser, max_steps=3000):
             for t in sched.threads:
                 if t.error is not None:
                     res["errors"].append("%s: %s: %s" % (t.name, type(t.error).__name__, t.error))
-            res["posts"] = [int(e[4]) for e in sched.trace if e[0].startswith("timer") and e[1] in ("dq.append", "dq.appendleft")]
+            res["posts"] = [e[4] for e in sched.trace if e[0].startswith("timer") and e[1] in ("dq.append", "dq.appendleft")]
             res["timer_finished"] = all(t.finished for t in sched.threads if t.name.startswith("timer"))
         finally:
             leaked = sched.shutdown()
@@ -777,11 +805,16 @@ def explore_prestart(run, n):
     started object)"""
     rng = run.rng
     for _ in range(n):
-        spec = {"where": rng.choice(["entry", "unstarted"]), "period": rng.randint(1, 3), "times": rng.choice([0, 1, 2, 3]),
+        spec = {"where": rng.choice(["entry", "unstarted", "started", "started"]), "period": rng.randint(1, 3), "times": rng.choice([0, 1, 2, 3]),
                 "deferred": int(rng.random() < 0.5), "lifo": int(rng.random() < 0.3), "wait": rng.choice([0, 0, 1, 2, 4]), "horizon": 14}
+        bias = rng.choice([0.0, 0.1, 0.3])
+        if spec["where"] == "started":
+            # any period a caller may pass, not only whole ticks; the clock moves only when nothing else can run: exact instants
+            spec["period"] = rng.choice([0.25, 0.5, 1, 1.25, 1.5, 2, 2.5, 3.75])
+            bias = 0.0
         seed = rng.randrange(1 << 30)
         r2 = random.Random(seed)
-        base = dsched.random_chooser(r2, clock_bias=rng.choice([0.0, 0.1, 0.3]))
+        base = dsched.random_chooser(r2, clock_bias=bias)
         res = run_prestart(spec, base)
         cj = {"what": "prestart", "spec": spec, "seed": seed, "schedule": [e[0] for e in res["trace"]]}
         run.count("timed source armed %s" % ("in the start state's ENTRY handler" if spec["where"] == "entry" else "on the unstarted object"))
@@ -789,6 +822,14 @@ def explore_prestart(run, n):
         if res["errors"]:
             run.violate("C10/thread-error", "a thread died: %s" % res["errors"][:2], cj)
         got, n_t, p = res["posts"], spec["times"], spec["period"]
+        if spec["where"] == "started" and "armed_at" in res and not res["errors"]:
+            t0 = res["armed_at"] + (p if spec["deferred"] else 0)
+            expect = [t0 + k * p for k in range(n_t if n_t else 1000) if t0 + k * p < res["now"] - 1e-9]
+            run.count("period %s: instants checked" % p)
+            if [round(x, 6) for x in got[:len(expect)]] != [round(x, 6) for x in expect] or (n_t and len(got) > n_t):
+                run.violate("C10/instants", "a source with period %s, times %d, deferred %s armed at %s posted at %s, expected %s… (virtual time, "
+                            "the clock advances only when no thread can run)" % (p, n_t, bool(spec["deferred"]), res["armed_at"],
+                                                                                  [round(x, 3) for x in got[:8]], [round(x, 3) for x in expect[:8]]), cj)
         if n_t and len(got) > n_t:
             run.violate("C10/too-many-posts", "a source armed before the thread started (times=%d) posted %d times" % (n_t, len(got)), cj)
         if res["outcome"] in ("stopped", "quiescent"):
